@@ -401,6 +401,12 @@ class Exec(Engine):
     pending_defined = []
     skipped_callee_clauses = set()
 
+    def ev_GeneratorExp(self, node, st):
+        # a generator expression consumed on the spot (join / list / sum / tuple argument): its items are those of the list
+        # comprehension with the same element and generators (element expressions are evaluated in pure mode, no effects)
+        lc = ast.copy_location(ast.ListComp(elt=node.elt, generators=node.generators), node)
+        return self.ev_ListComp(lc, st)
+
     def ev_ListComp(self, node, st):
         from . import reclists
         if not self.pure and len(node.generators) == 1 and not node.generators[0].ifs:
